@@ -387,7 +387,9 @@ func w11Run(t *testing.T, c *simrt.Case, prop string, keepTrace bool) simrt.Resu
 			})
 		}
 	}, nil)
-	if len(res.Stats.TaskPanics) > 0 && res.Violation == nil {
+	if len(res.Stats.TaskPanics) > 0 && res.Violation == nil && simrt.PanicInHarness(res.Stats.TaskPanics[0]) {
+		res.Stats.Probes["HARNESS-PANIC"]++
+	} else if len(res.Stats.TaskPanics) > 0 && res.Violation == nil {
 		clause, p := "server-task-panicked", "C10"
 		if prop == "C26" {
 			p, clause = "C26", "proxy-parser-panicked"
